@@ -1,3 +1,3 @@
 //! Replay shim: the real ndarray.
 pub use ::ndarray::*;
-pub use super::bounds::ACAP as CAP;
+pub use super::bounds::{CCAP, RCAP};
